@@ -118,7 +118,7 @@ def verify_function(ex, con, prop=None):
             info["unreached"] = ((info["unreached"] + "; ") if info["unreached"] else "") + "variant %s: %s" % (variant, e)
             continue
         except Exception as e:  # a crash of the generator is not a verdict about the code
-            info["unreached"] = "variant %s: generator error %s" % (variant, traceback.format_exc(limit=4))
+            info["unreached"] = "variant %s: generator error %s" % (variant, traceback.format_exc(limit=-5))
             info["crash"] = True
             continue
         base = "%s::%s[%s]" % (con.file, con.qual, variant)
